@@ -1,9 +1,12 @@
 /-
   Multi-leaf range proofs of the nmt-rs model, part 5: POSITION-BINDING SOUNDNESS against perfect trees.
 
-  `checkRangeProof_multi_sound`: if `check_range_proof` accepts the leaf hashes `X` at `start = s` against the root of a
+  `checkRangeProof_multi_sound_on`: if `check_range_proof` accepts the leaf hashes `X` at `start = s` against the root of a
   tree of `2^j` leaf hashes `L`, and the claimed range lies inside the tree (`s + |X| ≤ 2^j`), then `X` is exactly the
-  block `L[s .. s+|X|)` (idealised hash).
+  block `L[s .. s+|X|)` — provided the hash has no collision among the inputs `S` that the two computations hash: the leaf
+  preimages, the inner nodes of the honest root computation (`rootInputs`) and the `hash_nodes` calls of the verifier
+  (`proofInputs`).  (`HashOKOn H S`, satisfiable; the earlier hypothesis `HashOK H` = injective on ALL byte strings with
+  32-byte output is contradictory by pigeonhole, so the theorems stated with it were vacuous: audit item X1.)
 
   What nmt-rs does NOT bind (and the theorem therefore does not claim): a range proof carries no tree size — the
   verifier derives the tree shape from `(start, number of siblings)` — so for a tree whose size is not a power of two, or
@@ -13,7 +16,7 @@
 
   Generalises the single-leaf lemmas `inner_single_shallow / _perfect / _general` of `Nmt.lean`.
 -/
-import Lumina.Proofs.NmtRange
+import Lumina.Proofs.NmtMultiComplete
 
 namespace Lumina.Proofs.NmtMulti
 open Lumina.Util Lumina.Model.Nmt Lumina.Proofs.Nmt Lumina.Proofs.NmtRange
@@ -69,6 +72,94 @@ theorem child_WF {H : HashFn} (hk : HashLen H) {ign : Bool} {f : Nat} {X P : Lis
     exact ⟨wx _ h1, fun x hx => wx x (h2 x hx), wp⟩
   · exact inner_WF hk f hc wx wp
 
+/-! ### the inputs hashed by one step of the verifier -/
+
+/-- inputs hashed while processing a child that overlaps the range -/
+def childInputs (H : HashFn) (ign : Bool) (fuel : Nat) (X P : List NsHash) (s csize coff : Nat) : List Bytes :=
+  if csize = 1 then [] else innerInputs H ign fuel X P s csize coff
+
+theorem innerInputs_unfold {H : HashFn} {ign : Bool} {fuel : Nat} {X P : List NsHash} {s size off : Nat} :
+    innerInputs H ign (fuel + 1) X P s size off =
+      if X.length + s = 0 then []
+      else
+        match (if X.length + s - 1 ≥ nextSmallerPo2 size + off then
+                 childCheck H ign fuel X P s (size - nextSmallerPo2 size) (off + nextSmallerPo2 size)
+               else sibTake X P) with
+        | .error _ =>
+          (if X.length + s - 1 ≥ nextSmallerPo2 size + off then
+             childInputs H ign fuel X P s (size - nextSmallerPo2 size) (off + nextSmallerPo2 size) else [])
+        | .ok (right, X1, P1) =>
+          match (if s < nextSmallerPo2 size + off then childCheck H ign fuel X1 P1 s (nextSmallerPo2 size) off
+                 else sibTake X1 P1) with
+          | .error _ =>
+            (if X.length + s - 1 ≥ nextSmallerPo2 size + off then
+               childInputs H ign fuel X P s (size - nextSmallerPo2 size) (off + nextSmallerPo2 size) else []) ++
+            (if s < nextSmallerPo2 size + off then childInputs H ign fuel X1 P1 s (nextSmallerPo2 size) off else [])
+          | .ok (left, _, _) =>
+            (if X.length + s - 1 ≥ nextSmallerPo2 size + off then
+               childInputs H ign fuel X P s (size - nextSmallerPo2 size) (off + nextSmallerPo2 size) else []) ++
+            (if s < nextSmallerPo2 size + off then childInputs H ign fuel X1 P1 s (nextSmallerPo2 size) off else []) ++
+            [nodeInput left right] := by
+  rw [innerInputs]
+  rfl
+
+theorem childCheck_of_childRes {H : HashFn} {ign : Bool} {f : Nat} {X P : List NsHash} {s csize coff : Nat}
+    {h : NsHash} {X' P' : List NsHash} (hc : ChildRes H ign f X P s csize coff h X' P') :
+    childCheck H ign f X P s csize coff = .ok (h, X', P') := by
+  unfold ChildRes at hc
+  unfold childCheck
+  split
+  · rename_i h1
+    rw [if_pos h1] at hc
+    obtain ⟨htl, rfl⟩ := hc
+    rw [htl]
+  · rename_i h1
+    rw [if_neg h1] at hc
+    exact hc
+
+theorem sibTake_of {X P P1 : List NsHash} {x : NsHash} (h : takeLast? P = some (x, P1)) : sibTake X P = .ok (x, X, P1) := by
+  unfold sibTake; rw [h]
+
+/-- one step of `check_range_proof_inner` with the inputs it hashes: the children's inputs and the node itself -/
+theorem inner_step_on {H : HashFn} {ign : Bool} {fuel : Nat} {X P : List NsHash} {s size off : Nat}
+    {h : NsHash} {X2 P2 : List NsHash}
+    (e : checkRangeProofInner H ign (fuel + 1) X P s size off = .ok (h, X2, P2)) :
+    ∃ right X1 P1 left,
+      (if X.length + s - 1 ≥ nextSmallerPo2 size + off then
+         ChildRes H ign fuel X P s (size - nextSmallerPo2 size) (off + nextSmallerPo2 size) right X1 P1
+       else takeLast? P = some (right, P1) ∧ X1 = X) ∧
+      (if s < nextSmallerPo2 size + off then ChildRes H ign fuel X1 P1 s (nextSmallerPo2 size) off left X2 P2
+       else takeLast? P1 = some (left, P2) ∧ X2 = X1) ∧
+      hashNodes H ign left right = .ok h ∧
+      innerInputs H ign (fuel + 1) X P s size off =
+        (if X.length + s - 1 ≥ nextSmallerPo2 size + off then
+           childInputs H ign fuel X P s (size - nextSmallerPo2 size) (off + nextSmallerPo2 size) else []) ++
+        (if s < nextSmallerPo2 size + off then childInputs H ign fuel X1 P1 s (nextSmallerPo2 size) off else []) ++
+        [nodeInput left right] := by
+  obtain ⟨h0, right, X1, P1, left, hR, hL, hn⟩ := inner_step e
+  have hR' : (if X.length + s - 1 ≥ nextSmallerPo2 size + off then
+         ChildRes H ign fuel X P s (size - nextSmallerPo2 size) (off + nextSmallerPo2 size) right X1 P1
+       else takeLast? P = some (right, P1) ∧ X1 = X) := by
+    unfold ChildRes; exact hR
+  have hL' : (if s < nextSmallerPo2 size + off then ChildRes H ign fuel X1 P1 s (nextSmallerPo2 size) off left X2 P2
+       else takeLast? P1 = some (left, P2) ∧ X2 = X1) := by
+    unfold ChildRes; exact hL
+  refine ⟨right, X1, P1, left, hR', hL', hn, ?_⟩
+  have hRc : (if X.length + s - 1 ≥ nextSmallerPo2 size + off then
+        childCheck H ign fuel X P s (size - nextSmallerPo2 size) (off + nextSmallerPo2 size)
+      else sibTake X P) = .ok (right, X1, P1) := by
+    split
+    · rename_i c; rw [if_pos c] at hR'; exact childCheck_of_childRes hR'
+    · rename_i c; rw [if_neg c] at hR'; obtain ⟨htl, rfl⟩ := hR'; exact sibTake_of htl
+  have hLc : (if s < nextSmallerPo2 size + off then childCheck H ign fuel X1 P1 s (nextSmallerPo2 size) off
+      else sibTake X1 P1) = .ok (left, X2, P2) := by
+    split
+    · rename_i c; rw [if_pos c] at hL'; exact childCheck_of_childRes hL'
+    · rename_i c; rw [if_neg c] at hL'; obtain ⟨htl, rfl⟩ := hL'; exact sibTake_of htl
+  rw [innerInputs_unfold, if_neg h0, hRc]
+  simp only
+  rw [hLc]
+
 /-- the leaves a call consumed are the real leaves at their claimed positions: `X'` (what is left) is the prefix of `X`
     of the leaves before `max s off`, and every position `p` of the range from there up to the last index `E` holds the
     real leaf -/
@@ -113,14 +204,15 @@ theorem bind_both {X X1 X2 : List NsHash} {s off E k : Nat} {L : List NsHash} (h
     congr 1; omega
 
 /-- a leaf-hash child: the perfect tree it equals is a single leaf -/
-theorem leaf_child {H : HashFn} (hk : HashOK H) {ign' : Bool} {X X' : List NsHash} {h : NsHash} {s coff j : Nat}
-    {L : List NsHash} (htl : takeLast? X = some (h, X')) (lx : ∀ x ∈ X, IsLeaf H x)
+theorem leaf_child_on {H : HashFn} {S : Bytes → Prop} (hk : HashOKOn H S) {ign' : Bool} {X X' : List NsHash} {h : NsHash}
+    {s coff j : Nat} {L : List NsHash} (htl : takeLast? X = some (h, X')) (lx : ∀ x ∈ X, IsLeafOn H S x)
+    (hT : ∀ y ∈ perfectInputs H ign' j L, S y)
     (h1 : coff ≤ X.length + s - 1) (h2 : X.length + s - 1 < coff + 1)
     (pr : perfectRoot H ign' j L = .ok h) : j = 0 ∧ Bind X X' s coff (X.length + s - 1) L := by
   have hx := takeLast?_some htl
-  have lh : IsLeaf H h := lx h (takeLast?_mem htl).1
+  have lh : IsLeafOn H S h := lx h (takeLast?_mem htl).1
   cases j with
-  | succ j' => obtain ⟨ns, d, _, rfl⟩ := lh; exact (perfectRoot_succ_ne_leaf hk pr).elim
+  | succ j' => obtain ⟨ns, d, _, rfl, hS⟩ := lh; exact (perfectRoot_succ_ne_leaf_on hk.inj hS hT pr).elim
   | zero =>
     have hL := perfectRoot_zero pr
     have hlen : X.length = X'.length + 1 := by rw [hx]; simp
@@ -133,75 +225,83 @@ theorem leaf_child {H : HashFn} (hk : HashOK H) {ign' : Bool} {X X' : List NsHas
     simp
 
 /-- shallow verifier subtree against a deeper perfect real tree: impossible (any number of leaves) -/
-theorem child_shallow {H : HashFn} (hk : HashOK H) {ign ign' : Bool} : ∀ (f j : Nat) {X P : List NsHash}
-    {s csize coff : Nat} {h : NsHash} {X' P' : List NsHash} {L : List NsHash},
-    (∀ x ∈ X, IsLeaf H x) → (∀ p ∈ P, p.WF) → AllLeaf H L → 1 ≤ csize → csize ≤ 2 ^ j →
+theorem child_shallow_on {H : HashFn} {S : Bytes → Prop} (hk : HashOKOn H S) {ign ign' : Bool} :
+    ∀ (f j : Nat) {X P : List NsHash} {s csize coff : Nat} {h : NsHash} {X' P' : List NsHash} {L : List NsHash},
+    (∀ x ∈ X, IsLeafOn H S x) → (∀ p ∈ P, p.WF) → AllLeafOn H S L →
+    (∀ y ∈ childInputs H ign f X P s csize coff, S y) → (∀ y ∈ perfectInputs H ign' (j + 1) L, S y) →
+    1 ≤ csize → csize ≤ 2 ^ j →
     coff ≤ X.length + s - 1 → X.length + s - 1 < coff + csize → 1 ≤ X.length →
     ChildRes H ign f X P s csize coff h X' P' → perfectRoot H ign' (j + 1) L = .ok h → False := by
   intro f
   induction f with
   | zero =>
-    intro j X P s csize coff h X' P' L lx wp al h1 hsz hE1 hE2 hX hc pr
+    intro j X P s csize coff h X' P' L lx wp al hV hT h1 hsz hE1 hE2 hX hc pr
     unfold ChildRes at hc
     split at hc
-    · obtain ⟨ns, d, _, rfl⟩ := lx h (takeLast?_mem hc.1).1
-      exact perfectRoot_succ_ne_leaf hk pr
+    · obtain ⟨ns, d, _, rfl, hS⟩ := lx h (takeLast?_mem hc.1).1
+      exact perfectRoot_succ_ne_leaf_on hk.inj hS hT pr
     · simp [checkRangeProofInner] at hc
   | succ f ih =>
-    intro j X P s csize coff h X' P' L lx wp al h1 hsz hE1 hE2 hX hc pr
+    intro j X P s csize coff h X' P' L lx wp al hV hT h1 hsz hE1 hE2 hX hc pr
     have wx : ∀ x ∈ X, x.WF := fun x hx => (lx x hx).WF hk.hlen
     unfold ChildRes at hc
     split at hc
-    · obtain ⟨ns, d, _, rfl⟩ := lx h (takeLast?_mem hc.1).1
-      exact perfectRoot_succ_ne_leaf hk pr
+    · obtain ⟨ns, d, _, rfl, hS⟩ := lx h (takeLast?_mem hc.1).1
+      exact perfectRoot_succ_ne_leaf_on hk.inj hS hT pr
     · rename_i hne1
       have h2 : 2 ≤ csize := by omega
       obtain ⟨m, hm, hlt, hle⟩ := nextSmallerPo2_spec csize h2
-      obtain ⟨_, right, X1, P1, left, hR, hL, hn⟩ := inner_step hc
-      obtain ⟨l, r, hl, hr, hn'⟩ := perfectRoot_succ pr
-      have wl := perfectRoot_WF hk.hlen j (al.take _) hl
-      have wr := perfectRoot_WF hk.hlen j (al.drop _) hr
+      obtain ⟨right, X1, P1, left, hR, hL, hn, hI⟩ := inner_step_on hc
+      unfold childInputs at hV
+      rw [if_neg hne1, hI] at hV
+      have hVn : S (nodeInput left right) := hV _ (by simp)
+      obtain ⟨l, r, hl, hr, hn', hPI⟩ := perfectInputs_succ pr
+      have hTn : S (nodeInput l r) := hT _ (by rw [hPI]; simp)
+      have hTl : ∀ y ∈ perfectInputs H ign' j (L.take (2 ^ j)), S y := fun y hy => hT y (by rw [hPI]; simp [hy])
+      have hTr : ∀ y ∈ perfectInputs H ign' j (L.drop (2 ^ j)), S y := fun y hy => hT y (by rw [hPI]; simp [hy])
+      have wl := perfectRoot_WF hk.hlen j (al.take _).allLeaf hl
+      have wr := perfectRoot_WF hk.hlen j (al.drop _).allLeaf hr
       have hmj : m < j := (Nat.pow_lt_pow_iff_right (by omega)).mp (Nat.lt_of_lt_of_le hlt hsz)
       obtain ⟨j', rfl⟩ : ∃ j', j = j' + 1 := ⟨j - 1, by omega⟩
       have hmle : 2 ^ m ≤ 2 ^ j' := Nat.pow_le_pow_right (by omega) (by omega)
       have hp1 : 1 ≤ 2 ^ m := Nat.one_le_two_pow
-      rw [hm] at hR hL
+      rw [hm] at hR hL hV
       have hpow : 2 ^ (m + 1) = 2 * 2 ^ m := by rw [Nat.pow_succ]; omega
-      have hcR : X.length + s - 1 ≥ 2 ^ m + coff →
-          ChildRes H ign f X P s (csize - 2 ^ m) (coff + 2 ^ m) right X1 P1 := by
-        intro hc'; rw [if_pos hc'] at hR; unfold ChildRes; exact hR
       by_cases cA : X.length + s - 1 ≥ 2 ^ m + coff
-      · have hchild := hcR cA
-        obtain ⟨wright, wx1, wp1⟩ := child_WF hk.hlen hchild wx wp
+      · rw [if_pos cA] at hR
+        simp only [cA, ↓reduceIte] at hV
+        obtain ⟨wright, wx1, wp1⟩ := child_WF hk.hlen hR wx wp
         have wleft : left.WF := by
           split at hL
-          · have : ChildRes H ign f X1 P1 s (2 ^ m) coff left X' P' := by unfold ChildRes; exact hL
-            exact (child_WF hk.hlen this wx1 wp1).1
+          · exact (child_WF hk.hlen hL wx1 wp1).1
           · exact wp1 _ (takeLast?_mem hL.1).1
-        obtain ⟨_, rfl⟩ := hashNodes_hash_inj hk wleft wright wl wr hn hn' rfl
-        exact ih j' lx wp (al.drop _) (by omega) (by omega) (by omega) (by omega) hX hchild hr
+        obtain ⟨_, rfl⟩ := hashNodes_hash_inj_on hk.inj wleft wright wl wr hn hn' hVn hTn rfl
+        exact ih j' lx wp (al.drop _) (fun y hy => hV y (by simp [hy])) hTr (by omega) (by omega) (by omega) (by omega)
+          hX hR hr
       · rw [if_neg cA] at hR
+        simp only [cA, ↓reduceIte, List.nil_append] at hV
         obtain ⟨htl, rfl⟩ := hR
         have wright : right.WF := wp _ (takeLast?_mem htl).1
         have wp1 : ∀ p ∈ P1, p.WF := fun p hp => wp p ((takeLast?_mem htl).2 p hp)
         have cL : s < 2 ^ m + coff := by omega
         rw [if_pos cL] at hL
-        have hchild : ChildRes H ign f X1 P1 s (2 ^ m) coff left X' P' := by unfold ChildRes; exact hL
-        obtain ⟨wleft, _, _⟩ := child_WF hk.hlen hchild wx wp1
-        obtain ⟨rfl, _⟩ := hashNodes_hash_inj hk wleft wright wl wr hn hn' rfl
-        exact ih j' lx wp1 (al.take _) hp1 hmle hE1 (by omega) hX hchild hl
+        simp only [cL, ↓reduceIte] at hV
+        obtain ⟨wleft, _, _⟩ := child_WF hk.hlen hL wx wp1
+        obtain ⟨rfl, _⟩ := hashNodes_hash_inj_on hk.inj wleft wright wl wr hn hn' hVn hTn rfl
+        exact ih j' lx wp1 (al.take _) (fun y hy => hV y (by simp [hy])) hTl hp1 hmle hE1 (by omega) hX hL hl
 
 /-- perfect verifier subtree against a perfect real tree: same depth, and the consumed leaves are the real ones -/
-theorem child_perfect {H : HashFn} (hk : HashOK H) {ign ign' : Bool} : ∀ (f m j : Nat) {X P : List NsHash}
-    {s coff : Nat} {h : NsHash} {X' P' : List NsHash} {L : List NsHash},
-    (∀ x ∈ X, IsLeaf H x) → (∀ p ∈ P, p.WF) → AllLeaf H L →
+theorem child_perfect_on {H : HashFn} {S : Bytes → Prop} (hk : HashOKOn H S) {ign ign' : Bool} :
+    ∀ (f m j : Nat) {X P : List NsHash} {s coff : Nat} {h : NsHash} {X' P' : List NsHash} {L : List NsHash},
+    (∀ x ∈ X, IsLeafOn H S x) → (∀ p ∈ P, p.WF) → AllLeafOn H S L →
+    (∀ y ∈ childInputs H ign f X P s (2 ^ m) coff, S y) → (∀ y ∈ perfectInputs H ign' j L, S y) →
     coff ≤ X.length + s - 1 → X.length + s - 1 < coff + 2 ^ m → 1 ≤ X.length →
     ChildRes H ign f X P s (2 ^ m) coff h X' P' → perfectRoot H ign' j L = .ok h →
     j = m ∧ Bind X X' s coff (X.length + s - 1) L := by
   intro f
   induction f with
   | zero =>
-    intro m j X P s coff h X' P' L lx wp al hE1 hE2 hX hc pr
+    intro m j X P s coff h X' P' L lx wp al hV hT hE1 hE2 hX hc pr
     unfold ChildRes at hc
     split at hc
     · rename_i h1
@@ -210,11 +310,10 @@ theorem child_perfect {H : HashFn} (hk : HashOK H) {ign ign' : Bool} : ∀ (f m 
         | zero => rfl
         | succ m' => have := two_le_two_pow_succ m'; omega
       subst hm0
-      obtain ⟨hj, hb⟩ := leaf_child hk hc.1 lx hE1 (by simpa using hE2) pr
-      exact ⟨hj, hb⟩
+      exact leaf_child_on hk hc.1 lx hT hE1 (by simpa using hE2) pr
     · simp [checkRangeProofInner] at hc
   | succ f ih =>
-    intro m j X P s coff h X' P' L lx wp al hE1 hE2 hX hc pr
+    intro m j X P s coff h X' P' L lx wp al hV hT hE1 hE2 hX hc pr
     have wx : ∀ x ∈ X, x.WF := fun x hx => (lx x hx).WF hk.hlen
     unfold ChildRes at hc
     split at hc
@@ -224,50 +323,55 @@ theorem child_perfect {H : HashFn} (hk : HashOK H) {ign ign' : Bool} : ∀ (f m 
         | zero => rfl
         | succ m' => have := two_le_two_pow_succ m'; omega
       subst hm0
-      obtain ⟨hj, hb⟩ := leaf_child hk hc.1 lx hE1 (by simpa using hE2) pr
-      exact ⟨hj, hb⟩
+      exact leaf_child_on hk hc.1 lx hT hE1 (by simpa using hE2) pr
     · rename_i hne1
       obtain ⟨m', rfl⟩ : ∃ m', m = m' + 1 := by
         cases m with
         | zero => simp at hne1
         | succ m' => exact ⟨m', rfl⟩
-      obtain ⟨_, right, X1, P1, left, hR, hL, hn⟩ := inner_step hc
-      rw [nextSmallerPo2_pow] at hR hL
+      obtain ⟨right, X1, P1, left, hR, hL, hn, hI⟩ := inner_step_on hc
+      unfold childInputs at hV
+      rw [if_neg hne1, hI] at hV
+      have hVn : S (nodeInput left right) := hV _ (by simp)
+      rw [nextSmallerPo2_pow] at hR hL hV
       have hsub : 2 ^ (m' + 1) - 2 ^ m' = 2 ^ m' := by rw [Nat.pow_succ]; omega
       have hpow : 2 ^ (m' + 1) = 2 ^ m' + 2 ^ m' := by rw [Nat.pow_succ]; omega
       have hp1 : 1 ≤ 2 ^ m' := Nat.one_le_two_pow
-      rw [hsub] at hR
+      rw [hsub] at hR hV
       cases j with
       | zero =>
         exfalso
         have hL0 := perfectRoot_zero pr
-        obtain ⟨ns, d, _, rfl⟩ := al h (by rw [hL0]; simp)
-        exact leaf_ne_node hk hn rfl
+        obtain ⟨ns, d, _, rfl, hS⟩ := al h (by rw [hL0]; simp)
+        exact leaf_ne_node_on hk.inj hn hS hVn rfl
       | succ j' =>
-        obtain ⟨l, r, hl, hr, hn'⟩ := perfectRoot_succ pr
-        have wl := perfectRoot_WF hk.hlen j' (al.take _) hl
-        have wr := perfectRoot_WF hk.hlen j' (al.drop _) hr
+        obtain ⟨l, r, hl, hr, hn', hPI⟩ := perfectInputs_succ pr
+        have hTn : S (nodeInput l r) := hT _ (by rw [hPI]; simp)
+        have hTl : ∀ y ∈ perfectInputs H ign' j' (L.take (2 ^ j')), S y := fun y hy => hT y (by rw [hPI]; simp [hy])
+        have hTr : ∀ y ∈ perfectInputs H ign' j' (L.drop (2 ^ j')), S y := fun y hy => hT y (by rw [hPI]; simp [hy])
+        have wl := perfectRoot_WF hk.hlen j' (al.take _).allLeaf hl
+        have wr := perfectRoot_WF hk.hlen j' (al.drop _).allLeaf hr
         by_cases cA : X.length + s - 1 ≥ 2 ^ m' + coff
         · rw [if_pos cA] at hR
-          have hchildR : ChildRes H ign f X P s (2 ^ m') (coff + 2 ^ m') right X1 P1 := by unfold ChildRes; exact hR
-          obtain ⟨wright, wx1, wp1⟩ := child_WF hk.hlen hchildR wx wp
+          simp only [cA, ↓reduceIte] at hV
+          obtain ⟨wright, wx1, wp1⟩ := child_WF hk.hlen hR wx wp
           have wleft : left.WF := by
             split at hL
-            · have : ChildRes H ign f X1 P1 s (2 ^ m') coff left X' P' := by unfold ChildRes; exact hL
-              exact (child_WF hk.hlen this wx1 wp1).1
+            · exact (child_WF hk.hlen hL wx1 wp1).1
             · exact wp1 _ (takeLast?_mem hL.1).1
-          obtain ⟨rfl, rfl⟩ := hashNodes_hash_inj hk wleft wright wl wr hn hn' rfl
-          obtain ⟨hj, hbR⟩ := ih m' j' lx wp (al.drop _) (by omega) (by omega) hX hchildR hr
+          obtain ⟨rfl, rfl⟩ := hashNodes_hash_inj_on hk.inj wleft wright wl wr hn hn' hVn hTn rfl
+          obtain ⟨hj, hbR⟩ := ih m' j' lx wp (al.drop _) (fun y hy => hV y (by simp [hy])) hTr (by omega) (by omega) hX hR hr
           subst hj
           refine ⟨rfl, ?_⟩
           by_cases cL : s < 2 ^ j' + coff
           · rw [if_pos cL] at hL
-            have hchildL : ChildRes H ign f X1 P1 s (2 ^ j') coff left X' P' := by unfold ChildRes; exact hL
+            simp only [cL, ↓reduceIte] at hV
             have hX1 : X1.length + s = coff + 2 ^ j' := by have := hbR.1; omega
-            have lx1 : ∀ x ∈ X1, IsLeaf H x := by
+            have lx1 : ∀ x ∈ X1, IsLeafOn H S x := by
               obtain ⟨XS, hXS⟩ := hbR.2.1
               intro x hx; exact lx x (by rw [hXS]; exact List.mem_append_left _ hx)
-            obtain ⟨_, hbL⟩ := ih j' j' lx1 wp1 (al.take _) (by omega) (by omega) (by omega) hchildL hl
+            obtain ⟨_, hbL⟩ := ih j' j' lx1 wp1 (al.take _) (fun y hy => hV y (by simp [hy])) hTl (by omega) (by omega)
+              (by omega) hL hl
             have e1 : X1.length + s - 1 = coff + 2 ^ j' - 1 := by omega
             rw [e1] at hbL
             exact bind_both (by omega) (by omega) hbR hbL
@@ -275,58 +379,65 @@ theorem child_perfect {H : HashFn} (hk : HashOK H) {ign ign' : Bool} : ∀ (f m 
             obtain ⟨_, rfl⟩ := hL
             exact bind_right (by omega) hbR
         · rw [if_neg cA] at hR
+          simp only [cA, ↓reduceIte, List.nil_append] at hV
           obtain ⟨htl, rfl⟩ := hR
           have wright : right.WF := wp _ (takeLast?_mem htl).1
           have wp1 : ∀ p ∈ P1, p.WF := fun p hp => wp p ((takeLast?_mem htl).2 p hp)
           have cL : s < 2 ^ m' + coff := by omega
           rw [if_pos cL] at hL
-          have hchildL : ChildRes H ign f X1 P1 s (2 ^ m') coff left X' P' := by unfold ChildRes; exact hL
-          obtain ⟨wleft, _, _⟩ := child_WF hk.hlen hchildL wx wp1
-          obtain ⟨rfl, rfl⟩ := hashNodes_hash_inj hk wleft wright wl wr hn hn' rfl
-          obtain ⟨hj, hbL⟩ := ih m' j' lx wp1 (al.take _) hE1 (by omega) hX hchildL hl
+          simp only [cL, ↓reduceIte] at hV
+          obtain ⟨wleft, _, _⟩ := child_WF hk.hlen hL wx wp1
+          obtain ⟨rfl, rfl⟩ := hashNodes_hash_inj_on hk.inj wleft wright wl wr hn hn' hVn hTn rfl
+          obtain ⟨hj, hbL⟩ := ih m' j' lx wp1 (al.take _) (fun y hy => hV y (by simp [hy])) hTl hE1 (by omega) hX hL hl
           subst hj
           exact ⟨rfl, bind_left (by omega) hbL⟩
 
 /-- general verifier subtree against a perfect real tree that contains the claimed range: the consumed leaves are the
     real ones at their claimed positions -/
-theorem inner_general {H : HashFn} (hk : HashOK H) {ign ign' : Bool} : ∀ (f j : Nat) {X P : List NsHash}
-    {s size off : Nat} {h : NsHash} {X' P' : List NsHash} {L : List NsHash},
-    (∀ x ∈ X, IsLeaf H x) → (∀ p ∈ P, p.WF) → AllLeaf H L → 2 ≤ size →
+theorem inner_general_on {H : HashFn} {S : Bytes → Prop} (hk : HashOKOn H S) {ign ign' : Bool} :
+    ∀ (f j : Nat) {X P : List NsHash} {s size off : Nat} {h : NsHash} {X' P' : List NsHash} {L : List NsHash},
+    (∀ x ∈ X, IsLeafOn H S x) → (∀ p ∈ P, p.WF) → AllLeafOn H S L →
+    (∀ y ∈ innerInputs H ign f X P s size off, S y) → (∀ y ∈ perfectInputs H ign' j L, S y) → 2 ≤ size →
     off ≤ X.length + s - 1 → X.length + s - 1 < off + size → X.length + s - 1 < off + 2 ^ j → 1 ≤ X.length →
     checkRangeProofInner H ign f X P s size off = .ok (h, X', P') → perfectRoot H ign' j L = .ok h →
     Bind X X' s off (X.length + s - 1) L := by
   intro f
   induction f with
-  | zero => intro j X P s size off h X' P' L _ _ _ _ _ _ _ _ e; simp [checkRangeProofInner] at e
+  | zero => intro j X P s size off h X' P' L _ _ _ _ _ _ _ _ _ _ e; simp [checkRangeProofInner] at e
   | succ f ih =>
-    intro j X P s size off h X' P' L lx wp al h2 hE1 hE2 hEj hX hc pr
+    intro j X P s size off h X' P' L lx wp al hV hT h2 hE1 hE2 hEj hX hc pr
     have wx : ∀ x ∈ X, x.WF := fun x hx => (lx x hx).WF hk.hlen
     obtain ⟨m, hm, hlt, hle⟩ := nextSmallerPo2_spec size h2
-    obtain ⟨_, right, X1, P1, left, hR, hL, hn⟩ := inner_step hc
-    rw [hm] at hR hL
+    obtain ⟨right, X1, P1, left, hR, hL, hn, hI⟩ := inner_step_on hc
+    rw [hI] at hV
+    have hVn : S (nodeInput left right) := hV _ (by simp)
+    rw [hm] at hR hL hV
     have hp1 : 1 ≤ 2 ^ m := Nat.one_le_two_pow
     have hpow : 2 ^ (m + 1) = 2 * 2 ^ m := by rw [Nat.pow_succ]; omega
     cases j with
     | zero =>
       exfalso
       have hL0 := perfectRoot_zero pr
-      obtain ⟨ns, d, _, rfl⟩ := al h (by rw [hL0]; simp)
-      exact leaf_ne_node hk hn rfl
+      obtain ⟨ns, d, _, rfl, hS⟩ := al h (by rw [hL0]; simp)
+      exact leaf_ne_node_on hk.inj hn hS hVn rfl
     | succ j' =>
-      obtain ⟨l, r, hl, hr, hn'⟩ := perfectRoot_succ pr
-      have wl := perfectRoot_WF hk.hlen j' (al.take _) hl
-      have wr := perfectRoot_WF hk.hlen j' (al.drop _) hr
+      obtain ⟨l, r, hl, hr, hn', hPI⟩ := perfectInputs_succ pr
+      have hTn : S (nodeInput l r) := hT _ (by rw [hPI]; simp)
+      have hTl : ∀ y ∈ perfectInputs H ign' j' (L.take (2 ^ j')), S y := fun y hy => hT y (by rw [hPI]; simp [hy])
+      have hTr : ∀ y ∈ perfectInputs H ign' j' (L.drop (2 ^ j')), S y := fun y hy => hT y (by rw [hPI]; simp [hy])
+      have wl := perfectRoot_WF hk.hlen j' (al.take _).allLeaf hl
+      have wr := perfectRoot_WF hk.hlen j' (al.drop _).allLeaf hr
       have hpowj : 2 ^ (j' + 1) = 2 * 2 ^ j' := by rw [Nat.pow_succ]; omega
       by_cases cA : X.length + s - 1 ≥ 2 ^ m + off
       · rw [if_pos cA] at hR
-        have hchildR : ChildRes H ign f X P s (size - 2 ^ m) (off + 2 ^ m) right X1 P1 := by unfold ChildRes; exact hR
-        obtain ⟨wright, wx1, wp1⟩ := child_WF hk.hlen hchildR wx wp
+        simp only [cA, ↓reduceIte] at hV
+        obtain ⟨wright, wx1, wp1⟩ := child_WF hk.hlen hR wx wp
         have wleft : left.WF := by
           split at hL
-          · have : ChildRes H ign f X1 P1 s (2 ^ m) off left X' P' := by unfold ChildRes; exact hL
-            exact (child_WF hk.hlen this wx1 wp1).1
+          · exact (child_WF hk.hlen hL wx1 wp1).1
           · exact wp1 _ (takeLast?_mem hL.1).1
-        obtain ⟨rfl, rfl⟩ := hashNodes_hash_inj hk wleft wright wl wr hn hn' rfl
+        obtain ⟨rfl, rfl⟩ := hashNodes_hash_inj_on hk.inj wleft wright wl wr hn hn' hVn hTn rfl
+        have hVr : ∀ y ∈ childInputs H ign f X P s (size - 2 ^ m) (off + 2 ^ m), S y := fun y hy => hV y (by simp [hy])
         have hmj : m ≤ j' := by
           have : 2 ^ m < 2 ^ (j' + 1) := by omega
           have := (Nat.pow_lt_pow_iff_right (by omega)).mp this
@@ -337,19 +448,24 @@ theorem inner_general {H : HashFn} (hk : HashOK H) {ign ign' : Bool} : ∀ (f j 
           have hbR : Bind X X1 s (off + 2 ^ m) (X.length + s - 1) (L.drop (2 ^ m)) := by
             by_cases hr1 : size - 2 ^ m = 1
             · have hc0 : ChildRes H ign f X P s (2 ^ 0) (off + 2 ^ m) right X1 P1 := by
-                rw [hr1] at hchildR; simpa using hchildR
-              exact (child_perfect hk f 0 m lx wp (al.drop _) (by omega) (by simp; omega) hX hc0 hr).2
-            · unfold ChildRes at hchildR
-              rw [if_neg hr1] at hchildR
-              exact ih m lx wp (al.drop _) (by omega) (by omega) (by omega) (by omega) hX hchildR hr
+                rw [hr1] at hR; simpa using hR
+              have hV0 : ∀ y ∈ childInputs H ign f X P s (2 ^ 0) (off + 2 ^ m), S y := by
+                rw [hr1] at hVr; simpa using hVr
+              exact (child_perfect_on hk f 0 m lx wp (al.drop _) hV0 hTr (by omega) (by simp; omega) hX hc0 hr).2
+            · unfold ChildRes at hR
+              rw [if_neg hr1] at hR
+              unfold childInputs at hVr
+              rw [if_neg hr1] at hVr
+              exact ih m lx wp (al.drop _) hVr hTr (by omega) (by omega) (by omega) (by omega) hX hR hr
           by_cases cL : s < 2 ^ m + off
           · rw [if_pos cL] at hL
-            have hchildL : ChildRes H ign f X1 P1 s (2 ^ m) off left X' P' := by unfold ChildRes; exact hL
+            simp only [cL, ↓reduceIte] at hV
             have hX1 : X1.length + s = off + 2 ^ m := by have := hbR.1; omega
-            have lx1 : ∀ x ∈ X1, IsLeaf H x := by
+            have lx1 : ∀ x ∈ X1, IsLeafOn H S x := by
               obtain ⟨XS, hXS⟩ := hbR.2.1
               intro x hx; exact lx x (by rw [hXS]; exact List.mem_append_left _ hx)
-            obtain ⟨_, hbL⟩ := child_perfect hk f m m lx1 wp1 (al.take _) (by omega) (by omega) (by omega) hchildL hl
+            obtain ⟨_, hbL⟩ := child_perfect_on hk f m m lx1 wp1 (al.take _) (fun y hy => hV y (by simp [hy])) hTl
+              (by omega) (by omega) (by omega) hL hl
             have e1 : X1.length + s - 1 = off + 2 ^ m - 1 := by omega
             rw [e1] at hbL
             exact bind_both (by omega) (by omega) hbR hbL
@@ -359,32 +475,40 @@ theorem inner_general {H : HashFn} (hk : HashOK H) {ign ign' : Bool} : ∀ (f j 
         · exfalso
           obtain ⟨j'', rfl⟩ : ∃ j'', j' = j'' + 1 := ⟨j' - 1, by omega⟩
           have : 2 ^ m ≤ 2 ^ j'' := Nat.pow_le_pow_right (by omega) (by omega)
-          exact child_shallow hk f j'' lx wp (al.drop _) (by omega) (by omega) (by omega) (by omega) hX hchildR hr
+          exact child_shallow_on hk f j'' lx wp (al.drop _) hVr hTr (by omega) (by omega) (by omega) (by omega) hX hR hr
       · rw [if_neg cA] at hR
+        simp only [cA, ↓reduceIte, List.nil_append] at hV
         obtain ⟨htl, rfl⟩ := hR
         have wright : right.WF := wp _ (takeLast?_mem htl).1
         have wp1 : ∀ p ∈ P1, p.WF := fun p hp => wp p ((takeLast?_mem htl).2 p hp)
         have cL : s < 2 ^ m + off := by omega
         rw [if_pos cL] at hL
-        have hchildL : ChildRes H ign f X1 P1 s (2 ^ m) off left X' P' := by unfold ChildRes; exact hL
-        obtain ⟨wleft, _, _⟩ := child_WF hk.hlen hchildL wx wp1
-        obtain ⟨rfl, rfl⟩ := hashNodes_hash_inj hk wleft wright wl wr hn hn' rfl
-        obtain ⟨hj, hbL⟩ := child_perfect hk f m j' lx wp1 (al.take _) hE1 (by omega) hX hchildL hl
+        simp only [cL, ↓reduceIte] at hV
+        obtain ⟨wleft, _, _⟩ := child_WF hk.hlen hL wx wp1
+        obtain ⟨rfl, rfl⟩ := hashNodes_hash_inj_on hk.inj wleft wright wl wr hn hn' hVn hTn rfl
+        obtain ⟨hj, hbL⟩ := child_perfect_on hk f m j' lx wp1 (al.take _) (fun y hy => hV y (by simp [hy])) hTl hE1
+          (by omega) hX hL hl
         subst hj
         exact bind_left (by omega) hbL
 
 /-- **Position binding of multi-leaf range proofs against perfect trees.**  If `check_range_proof` accepts the leaf
     hashes `X` (non-empty) at `start = s` against the root of the `2^j` leaf hashes `L`, and `s + |X| ≤ 2^j`, then `X`
-    is the block of `L` at `[s, s + |X|)` (idealised hash). -/
-theorem checkRangeProof_multi_sound {H : HashFn} (hk : HashOK H) {ign ign' : Bool} {j : Nat} {L : List NsHash}
-    {root : NsHash} {X P : List NsHash} {s : Nat}
-    (al : AllLeaf H L) (hl : L.length = 2 ^ j) (hroot : computeRoot H ign' L = .ok root)
-    (lx : ∀ x ∈ X, IsLeaf H x) (wp : ∀ p ∈ P, p.WF) (hX : 1 ≤ X.length) (hs : s + X.length ≤ 2 ^ j)
+    is the block of `L` at `[s, s + |X|)` — for every hash with 32-byte output that has no collision among `S`, where `S`
+    contains the leaf preimages of `L` and `X` (`AllLeafOn`, `IsLeafOn`), the inputs of the honest root computation
+    (`rootInputs`) and those of this verification (`proofInputs`). -/
+theorem checkRangeProof_multi_sound_on {H : HashFn} {S : Bytes → Prop} (hk : HashOKOn H S) {ign ign' : Bool} {j : Nat}
+    {L : List NsHash} {root : NsHash} {X P : List NsHash} {s : Nat}
+    (al : AllLeafOn H S L) (hl : L.length = 2 ^ j) (hroot : computeRoot H ign' L = .ok root)
+    (lx : ∀ x ∈ X, IsLeafOn H S x) (wp : ∀ p ∈ P, p.WF) (hX : 1 ≤ X.length) (hs : s + X.length ≤ 2 ^ j)
+    (hV : ∀ y ∈ proofInputs H ign X P s, S y) (hT : ∀ y ∈ rootInputs H ign' (L.length + 1) L, S y)
     (e : checkRangeProof H ign root X P s = .ok ()) : X = (L.drop s).take X.length := by
   rw [computeRoot_perfect hl] at hroot
+  have hT' : ∀ y ∈ perfectInputs H ign' j L, S y := by
+    intro y hy; apply hT; rw [rootInputs_perfect j _ L hl (by omega)]; exact hy
   unfold checkRangeProof at e
+  unfold proofInputs at hV
   have h0 : ¬ (X.length = 0) := by omega
-  rw [if_neg h0] at e
+  rw [if_neg h0] at e hV
   by_cases htriv : X.length = 1 ∧ P.isEmpty = true
   · rw [if_pos htriv] at e
     split at e
@@ -398,15 +522,22 @@ theorem checkRangeProof_multi_sound {H : HashFn} (hk : HashOK H) {ign ign' : Boo
         subst hhead
         cases j with
         | zero => rw [perfectRoot_zero hroot]; rfl
-        | succ j' => obtain ⟨ns, d, _, hx⟩ := lx x (by simp); rw [hx] at hroot; exact (perfectRoot_succ_ne_leaf hk hroot).elim
+        | succ j' =>
+          obtain ⟨ns, d, _, hx, hS⟩ := lx x (by simp)
+          rw [hx] at hroot
+          exact (perfectRoot_succ_ne_leaf_on hk.inj hS hT' hroot).elim
     · cases e
-  · rw [if_neg htriv] at e
-    dsimp only at e
+  · rw [if_neg htriv] at e hV
+    dsimp only at e hV
     split at e
     · cases e
-    · split at e
+    · rename_i hnl
+      rw [if_neg hnl] at hV
+      split at e
       · cases e
       · rename_i T hts
+        rw [hts] at hV
+        dsimp only at hV
         split at e
         · cases e
         · rename_i computed X' P' hin
@@ -429,7 +560,7 @@ theorem checkRangeProof_multi_sound {H : HashFn} (hk : HashOK H) {ign ign' : Boo
                     | cons a b => simp
                   exact computeTreeSize_ge_two (by omega) hts
                 · omega
-            have hb := inner_general hk T j lx wp al hT2 (Nat.zero_le _) (by omega) (by omega) hX hin hroot
+            have hb := inner_general_on hk T j lx wp al hV hT' hT2 (Nat.zero_le _) (by omega) (by omega) hX hin hroot
             obtain ⟨_, _, h3⟩ := hb
             apply List.ext_getElem?
             intro i
